@@ -807,3 +807,38 @@ Theorem assignments_lister_order_independent nodes nodes' m specs :
   Permutation nodes nodes' -> NoDup (map nname nodes) ->
   assignments (list_nodes nodes) m specs = assignments (list_nodes nodes') m specs.
 Proof. intros Hp Hnd. now rewrite (list_nodes_order_independent nodes nodes' Hp Hnd). Qed.
+
+(* ------------------------------------------------------------------ *)
+(* statelessness across reconciles                                      *)
+(* ------------------------------------------------------------------ *)
+
+Lemma reconcile_fresh specs mg nodes m :
+  new_manager specs = Some mg ->
+  fst (reconcile mg nodes m) = mg /\ assignments nodes m specs = Some (snd (reconcile mg nodes m)).
+Proof.
+  unfold new_manager, assignments. destruct (valid_config specs); [|discriminate].
+  intros [= <-]. split; [reflexivity|]. unfold reconcile, manager_chains. cbn [snd].
+  now rewrite map_map.
+Qed.
+
+(* the k-th reconcile of ANY history on one manager returns what a fresh manager
+   returns on the k-th input alone: no result depends on an earlier reconcile *)
+Theorem history_stateless specs steps outs k ns m :
+  history specs steps = Some outs -> nth_error steps k = Some (ns, m) ->
+  exists r, nth_error outs k = Some r /\ assignments ns m specs = Some r.
+Proof.
+  unfold history. destruct (new_manager specs) as [mg|] eqn:Emg; [|discriminate].
+  intros [= <-]. revert k. induction steps as [|[ns0 m0] steps IH]; intros k Hk; [now destruct k|].
+  destruct k as [|k]; simpl in Hk.
+  - injection Hk as -> ->. eexists. split; [reflexivity|].
+    exact (proj2 (reconcile_fresh specs mg ns m Emg)).
+  - exact (IH k Hk).
+Qed.
+
+Theorem history_length specs steps outs :
+  history specs steps = Some outs -> length outs = length steps.
+Proof.
+  unfold history. destruct (new_manager specs) as [mg|]; [|discriminate]. intros [= <-].
+  revert mg. induction steps as [|[ns m] steps IH]; intros mg; simpl; [reflexivity|].
+  unfold reconcile. simpl. now rewrite IH.
+Qed.
